@@ -32,7 +32,11 @@ func init() {
 
 var bg = context.Background()
 
-// Shape is one way to build the shared error.
+// Shape is one way to build the shared error. Every call of Build returns a
+// brand-new object graph: the object the concurrent observers share is never
+// looked at by anything else, and reference ("alone") results always come
+// from a twin built the same way — a warm-up call on the same VALUE would
+// hide per-object lazy initialisation.
 type Shape struct {
 	Name string
 	Desc string
@@ -91,6 +95,25 @@ var Shapes = []*Shape{
 		e = errors.WithDetail(e, "a detail")
 		e = errors.WithDomain(e, errors.NamedDomain("dom"))
 		return hop(e)
+	}},
+	// LOCAL (never transferred) annotation layers: a decoded layer carries its
+	// safe details ready-made, a local one computes them from its payload on
+	// demand — exactly where a change might start to memoize.
+	{"local-tags", "WithContextTags{plain string, errors.Safe, nil}(Wrap(New))", func() error {
+		ctx := logtags.AddTag(bg, "user", "secret")
+		ctx = logtags.AddTag(ctx, "node", errors.Safe(7))
+		ctx = logtags.AddTag(ctx, "flag", nil)
+		return errors.WithContextTags(errors.Wrap(errors.New("base"), "ctx"), ctx)
+	}},
+	{"local-annot", "WithSafeDetails(WithDomain(WithTelemetry(New, zeta, alpha, mid)))", func() error {
+		e := errors.WithTelemetry(errors.New("base"), "zeta", "alpha", "mid")
+		e = errors.WithDomain(e, errors.NamedDomain("dom"))
+		return errors.WithSafeDetails(e, "a\nb %d", errors.Safe(1))
+	}},
+	{"local-links", "WithDetail(WithHint(WithIssueLink(New)))", func() error {
+		e := errors.WithIssueLink(errors.New("base"), errors.IssueLink{IssueURL: "https://issues/123", Detail: "sub-issue"})
+		e = errors.WithHint(e, "a hint")
+		return errors.WithDetail(e, "a detail")
 	}},
 	{"gleaf", "Wrap(&driver.GLeaf[string]): a user-defined generic leaf type", func() error {
 		return errors.Wrap(&GLeaf[string]{Msg: "generic"}, "ctx")
